@@ -26,7 +26,8 @@ enum {
     SLU_VEV_PIVOT_OUT,     /* a=jcol, b=pivrow, c=info */
     SLU_VEV_PRUNE,         /* a=jcol, b=irep, c=new xprune */
     SLU_VEV_PRE_FINALIZE,  /* p=GlobalLU_t* */
-    SLU_VEV_ALLOC_ENTER    /* a=MemType, b=jcol, c=num: first statement inside the allocator's critical section */
+    SLU_VEV_ALLOC_ENTER,   /* a=MemType, b=jcol, c=num: first statement inside the allocator's critical section */
+    SLU_VEV_USTACK         /* ?user_malloc, inside the lock after the reservation: a=bytes, b=which end, p=long[4]{size,used,top1,top2} */
 };
 #else
 #define SLU_VERIF_EV(ev, pnum, a, b, c, p)
